@@ -9,7 +9,9 @@ import (
 
 // case line:  d <type> <input-hex>
 // output:     ok <re-encoding of the decoded value> <bytes consumed> | ok-huge | err | panic   [+ " big"]
-// (see c11Decode).  Inputs: canonical encodings, every strict prefix of them, bit flips, random
+//             [+ " <reader>=<outcome>" for every other way of feeding the same bytes (Unmarshal,
+//             NewDecoder over bytes.Reader / iotest.HalfReader / OneByteReader / DataErrReader)
+//             whose outcome differs]   (see c11Decode, c11DecodeAll).  Inputs: canonical encodings, every strict prefix of them, bit flips, random
 // tails, and "evil" encodings written by c12Evil: non-canonical compact integers, inflated or huge
 // declared lengths with a short body, bad bool / option / result / variant tags.
 func c12Run(line string) string {
@@ -21,7 +23,7 @@ func c12Run(line string) string {
 		return "bad-op"
 	}
 	t := c11ParseTy(f[1])
-	return c11Decode(t, vhUnhex(f[2]))
+	return c11DecodeAll(t, vhUnhex(f[2]))
 }
 
 type c12State struct{ queue []string }
@@ -72,9 +74,9 @@ func c12Gen(r *vhRng) string {
 			isSite[s] = true
 		}
 		add(honest)
-		// every strict prefix (long encodings: the first 24, the last 8 and 8 random ones)
+		// every strict prefix (encodings above 160 bytes: the first 24, the last 8 and 8 random ones)
 		for i := 0; i < len(honest); i++ {
-			if len(honest) <= 48 || i < 24 || i >= len(honest)-8 || r.Chance(8, len(honest)) {
+			if len(honest) <= 160 || i < 24 || i >= len(honest)-8 || r.Chance(8, len(honest)) {
 				add(honest[:i])
 			}
 		}
